@@ -60,8 +60,10 @@ def render(kind, cls, n, name):
 class Run(object):
     """One execution of the real protocol."""
 
-    def __init__(self, seg=("whole",), rng=None, wrap=True):
+    def __init__(self, seg=("whole",), rng=None, wrap=True, late_attach=False):
         self.wrap = wrap
+        self.late_attach = late_attach
+        self.unattached = []
         self.seg = seg
         self.rng = rng or random.Random(0)
         self.proto = TorControlProtocol()
@@ -114,8 +116,13 @@ class Run(object):
             run.cmds.append(dict(text=text, written=False, kind=run.next_kind))
             run.next_kind = None
             run.res.append(dict(k="p", cls="", toks=[]))
+            kind = run.cmds[-1]["kind"]
             d = orig_q(cmd, arg)
-            d.addCallbacks(run._ok, run._err, callbackArgs=(serial,), errbackArgs=(serial,))
+            if run.late_attach and kind in (None, "plain") and arg is None:
+                # the caller submits first and looks at the outcome later (attaches its callbacks after the reply is in)
+                run.unattached.append((d, serial))
+            else:
+                d.addCallbacks(run._ok, run._err, callbackArgs=(serial,), errbackArgs=(serial,))
             return d
         p.queue_command = queue_command
         orig_lr = p.lineReceived
@@ -171,6 +178,9 @@ class Run(object):
         return None
 
     def snapshot(self):
+        for d, serial in self.unattached:
+            d.addCallbacks(self._ok, self._err, callbackArgs=(serial,), errbackArgs=(serial,))
+        self.unattached = []
         data = self.tr.value()
         self.tr.clear()
         wrote = []
@@ -398,16 +408,16 @@ class _Sink(object):
         pass
 
 
-def replay(script, seg=("whole",), rng=None):
+def replay(script, seg=("whole",), rng=None, late_attach=False):
     """run a whole stimulus script; returns the trace (steps with obs)"""
-    run = Run(seg, rng)
+    run = Run(seg, rng, late_attach=late_attach)
     steps = []
     for i, e in enumerate(script):
         obs = run.step(e, script[i + 1:])
         s = dict(e)
         s["obs"] = obs
         steps.append(s)
-    return dict(steps=steps, seg=list(seg), errors=run.errors[:3])
+    return dict(steps=steps, seg=list(seg), late=bool(late_attach), errors=run.errors[:3])
 
 
 # ---------------------------------------------------------------------------
